@@ -120,37 +120,20 @@ def DetectedEveryTime
 def witnessGood : Bytes := sealBlock .crc32 0 [1, 0, 0, 0]
 def witnessBad : Bytes := (65 : UInt8) :: witnessGood.drop 1
 
-/-- REFUTED for the read path that exists: `try_get_with` publishes the loaded bytes in the cache
-before the trailer is decoded and verified, and a failed verification does not evict them — the
-first read fails with a checksum error, the second returns the altered value. -/
-theorem detected_every_time_unsound : ¬ DetectedEveryTime getBlock := by
-  intro h
-  have := h witnessBad 2 (by decide +kernel) (.ok (0, [65, 0, 0, 0])) (by decide +kernel)
-  exact absurd this (by decide)
-
-/-- what the witness shows, step by step -/
-example : readN getBlock witnessBad 2 {} = [.error .checksum, .ok (0, [65, 0, 0, 0])] := by decide +kernel
-
-/-- What does hold for the code that exists: the FIRST read of a corrupted block (not yet in the
-cache) fails. -/
-theorem detected_first_read_partial (file : Bytes) (c : BlockCache) (key : Nat)
-    (hmiss : c.get key = none) (hbad : isErr (openBlock true file) = true) :
-    isErr (getBlock c file key 0 file.length).2 = true := by
-  simp only [getBlock, hmiss]
-  simp [hbad]
-
-/-- And the candidate repair (verify, then publish) gives the full statement: every one of any
-number of reads of a corrupted block fails. -/
-theorem fixed_read_path_detects_every_time : DetectedEveryTime getBlockFixed := by
+/-- **Every read, not only the first** (the read path since the repair: verify, then publish).
+Every one of ANY number of reads of a corrupted block through the same cache fails: a block that
+does not verify is never published, so no later read can be a cache hit on it.  Induction on the
+number of reads. -/
+theorem detected_every_time : DetectedEveryTime getBlock := by
   intro file n hbad
-  suffices ∀ c : BlockCache, c.get 0 = none → ∀ r ∈ readN getBlockFixed file n c, isErr r = true from
+  suffices ∀ c : BlockCache, c.get 0 = none → ∀ r ∈ readN getBlock file n c, isErr r = true from
     this {} rfl
   induction n with
   | zero => intro c _ r hr; simp [readN] at hr
   | succ n ih =>
     intro c hc r hr
-    have hstep : getBlockFixed c file 0 0 file.length = (c, openBlock true file) := by
-      simp only [getBlockFixed, hc]
+    have hstep : getBlock c file 0 0 file.length = (c, openBlock true file) := by
+      simp only [getBlock, hc]
       simp only [Nat.zero_add, Nat.lt_irrefl, ↓reduceIte, List.drop_zero, List.take_length]
       cases ho : openBlock true file with
       | error e => rfl
@@ -160,8 +143,18 @@ theorem fixed_read_path_detects_every_time : DetectedEveryTime getBlockFixed := 
     · exact hbad
     · exact ih c hc r hr
 
-example : readN getBlockFixed witnessBad 3 {} = [.error .checksum, .error .checksum, .error .checksum] := by
+example : readN getBlock witnessBad 3 {} = [.error .checksum, .error .checksum, .error .checksum] := by
   decide +kernel
+
+/-- The design before the repair (cache first, verify afterwards) did NOT have this property: first
+read `Err(Checksum)`, second read `Ok` with the altered payload.  Kept machine-checked: a regression
+to that design makes model and implementation disagree on the witness the check replays. -/
+theorem cache_first_read_path_unsound : ¬ DetectedEveryTime getBlockCacheFirst := by
+  intro h
+  have := h witnessBad 2 (by decide +kernel) (.ok (0, [65, 0, 0, 0])) (by decide +kernel)
+  exact absurd this (by decide)
+
+example : readN getBlockCacheFirst witnessBad 2 {} = [.error .checksum, .ok (0, [65, 0, 0, 0])] := by decide +kernel
 
 /-! ## background compaction reads the corrupted block first
 
@@ -187,33 +180,18 @@ def NeverLaunders
   ∀ (file : Bytes) (n : Nat), isErr (openBlock true file) = true →
     ∀ o ∈ compactN read file n {}, o = none
 
-/-- REFUTED for the read path that exists: the first pass fails (and is only logged) but leaves
-the corrupted block in the cache; the second pass reads it unverified and writes it into a new
-row-set **with a valid checksum** — the altered value is now permanent and survives a reopen. -/
-theorem compaction_launders_unsound : ¬ NeverLaunders getBlock := by
-  intro h
-  have := h witnessBad 2 (by decide +kernel) (some (sealBlock .crc32 0 [65, 0, 0, 0])) (by decide +kernel)
-  exact absurd this (by decide)
-
-example : compactN getBlock witnessBad 2 {} = [none, some (sealBlock .crc32 0 [65, 0, 0, 0])] := by
-  decide +kernel
-
-/-- whatever a compaction pass read — corrupted or not — the block it writes verifies on a fresh load -/
-theorem laundered_block_verifies (bt : Nat) (payload : Bytes) (hbt : bt < BLOCK_TYPE_COUNT) :
-    openBlock true (sealBlock .crc32 bt payload) = .ok (bt, payload) :=
-  openBlock_sealBlock .crc32 bt payload hbt
-
-/-- with the verify-then-publish read path, no number of passes launders a corrupted block -/
-theorem compaction_fixed_never_launders : NeverLaunders getBlockFixed := by
+/-- **Compaction never launders** (read path since the repair): no number of compaction passes over a
+corrupted block ever writes a row-set — every pass fails, because the block never reaches the cache. -/
+theorem compaction_never_launders : NeverLaunders getBlock := by
   intro file n hbad
-  suffices ∀ c : BlockCache, c.get 0 = none → ∀ o ∈ compactN getBlockFixed file n c, o = none from
+  suffices ∀ c : BlockCache, c.get 0 = none → ∀ o ∈ compactN getBlock file n c, o = none from
     this {} rfl
   induction n with
   | zero => intro c _ o ho; simp [compactN] at ho
   | succ n ih =>
     intro c hc o ho
-    have hstep : getBlockFixed c file 0 0 file.length = (c, openBlock true file) := by
-      simp only [getBlockFixed, hc]
+    have hstep : getBlock c file 0 0 file.length = (c, openBlock true file) := by
+      simp only [getBlock, hc]
       simp only [Nat.zero_add, Nat.lt_irrefl, ↓reduceIte, List.drop_zero, List.take_length]
       cases ho' : openBlock true file with
       | error e => rfl
@@ -224,6 +202,21 @@ theorem compaction_fixed_never_launders : NeverLaunders getBlockFixed := by
       | error e => rfl
       | ok v => rw [ho'] at hbad; simp [isErr] at hbad
     · exact ih c hc o ho
+
+example : compactN getBlock witnessBad 3 {} = [none, none, none] := by decide +kernel
+
+/-- Before the repair the second pass read the cached corrupted block unverified and wrote it into a
+new row-set **with a valid checksum** (permanent, surviving a reopen).  Kept machine-checked. -/
+theorem cache_first_compaction_launders : ¬ NeverLaunders getBlockCacheFirst := by
+  intro h
+  have := h witnessBad 2 (by decide +kernel) (some (sealBlock .crc32 0 [65, 0, 0, 0])) (by decide +kernel)
+  exact absurd this (by decide)
+
+/-- why laundering was permanent: whatever a compaction pass read, the block it writes verifies on
+a fresh load -/
+theorem laundered_block_verifies (bt : Nat) (payload : Bytes) (hbt : bt < BLOCK_TYPE_COUNT) :
+    openBlock true (sealBlock .crc32 bt payload) = .ok (bt, payload) :=
+  openBlock_sealBlock .crc32 bt payload hbt
 
 /-! ## the checksum type is read from the bytes it protects nothing of -/
 
